@@ -23,7 +23,7 @@ from static_frame.core.exception import StoreFileMutation
 PID = 'C17'
 RULE = ('1..5 Frames (varied shapes, int/float/str/bool columns, index depth 1-2 with a per-label StoreConfig) written to zip_pickle / zip_csv / zip_tsv / sqlite, a Bus opened with '
         'max_persist in {None, 1..n}, then a history of <= 14 (quick) / 30 (thorough) steps: single / list / slice / iloc / bool access, items(), values, iteration, get, '
-        'status/shapes/nbytes/mloc (must not load), derivations (selection, drop, reindex, sort_index, rename, head) whose Buses are accessed later, and faults (touch, rewrite, delete, replace); '
+        'status/shapes/nbytes/mloc (must not load), derivations (selection, drop, reindex, sort_index, rename, head) whose Buses are accessed later, and faults (touch forwards / backwards in time, rewrite, delete, replace with a newer / older file); '
         'non-trivial = an eviction followed by a re-access of the evicted label, or a fault followed by an access')
 ASSUMPTIONS = ['optional formats (xlsx, hdf5, parquet) are not installed and are not exercised',
                'the eager model for text/SQL formats is the eager full read with the same config; faithfulness of the format is asserted separately against the written Frames',
@@ -34,7 +34,7 @@ FORMATS = ('zip_pickle', 'zip_csv', 'zip_tsv', 'sqlite')
 ACCESS = ('list', 'get', 'slice', 'get', 'bool', 'get', 'iloc', 'items', 'values', 'iter', 'get_method', 'contains')
 INSPECT = ('status', 'shapes', 'nbytes', 'mloc', 'len', 'index', 'display')
 DERIVE = ('sel_list', 'drop', 'reindex', 'sort_index', 'rename', 'head', 'iloc_slice')
-FAULT = ('touch', 'rewrite_same', 'delete', 'replace')
+FAULT = ('touch', 'rewrite_same', 'replace_back', 'delete', 'replace', 'touch_back')
 
 
 @st.composite
@@ -242,8 +242,9 @@ def _check(case, tmp):
         if k == 'fault':
             if stale or n == 0:
                 continue
-            if s == 'touch':
-                t = os.path.getmtime(fp) + 37.0
+            if s in ('touch', 'touch_back'):
+                # (a file restored from an older copy carries an earlier time: any time other than the recorded one is a change)
+                t = os.path.getmtime(fp) + (37.0 if s == 'touch' else -41.0)
                 os.utime(fp, (t, t))
             elif s == 'rewrite_same':
                 getattr(src, WRITERS[fmt])(other_fp, config=config)
@@ -256,7 +257,7 @@ def _check(case, tmp):
                 alt = sf.Bus.from_frames([sf.Frame.from_records([(9, 9)], columns=('z', 'w'), index=('q',), name=nm) for nm in names])
                 getattr(alt, WRITERS[fmt])(other_fp, config=sf.StoreConfig(index_depth=1, **({'label_encoder': _label_enc, 'label_decoder': _label_dec} if lk != 'str' else {})))
                 shutil.copyfile(other_fp, fp)
-                t = os.path.getmtime(fp) + 71.0
+                t = os.path.getmtime(fp) + (71.0 if s == 'replace' else -73.0)
                 os.utime(fp, (t, t))
             stale = True
             classes.append('fault:' + s)
